@@ -337,7 +337,7 @@ def eval_monad_reverse(a, backend):
                 return np_mod.flip(a, dims=[0])  # torch style
             except TypeError:
                 return np_mod.flip(a, axis=0)  # numpy style
-    return a[::-1]
+    return a[::-1] if is_iterable(a) else a
 
 
 def eval_monad_shape(a, backend):
